@@ -96,7 +96,7 @@ PROPS["C01"] = {
 }
 PROPS["C02"] = {
     "level": "proof",
-    "budget": {"quick": [("c02", 8000), ("c04", 250)], "thorough": [("c02", 1500000), ("c04", 4000)], "search": [("c02", 2000000), ("c04", 8000)]},
+    "budget": {"quick": [("c02", 8000), ("c04", 250), ("c09", 40)], "thorough": [("c02", 1500000), ("c04", 4000), ("c09", 600)], "search": [("c02", 2000000), ("c04", 8000), ("c09", 1200)]},
     "rule": "every legal move of every corpus position, then random games of 1-600 plies from corpus/generated valid positions with the board compared (all 8 bitboards, side, rights, ep, counters) after EVERY ply against the model and against Spec.play; plus a malformed stream (arbitrary boards x arbitrary moves) for make_move totality incl. panics; and moves applied through the engine's own `position ... moves` path (generator c04: several related position commands per engine, board after each vs the fold of Spec.play); distinct = distinct (board, move) pairs",
     "trusted_base": [KERNEL, AXIOMS, TIE, EXTRACT, "Spec/Chess.lean play/keepsRight is the meaning of 'successor position'"],
     "assumptions": ["u8/i8 square arithmetic modelled by Nat/Int (wrap-around unreachable on valid boards)"],
@@ -156,7 +156,7 @@ PROPS["C06"] = {
     "budget": {"quick": [("c06", 12)], "thorough": [("c06", 250)], "search": [("c06", 500)]},
     "rule": "for small-tree positions: a deadline at EVERY node count 1..total (exhaustive when the completed search has <= 120 nodes, sampled otherwise), expressed both as node budget and as poll index; 1-3 interrupted searches, then every record left in the table for the root and its successors audited against minimax (s.ttclaim), a later completed search judged against minimax (only when no deeper record was reused), and the repetition stack length compared (rep=); black-box with REAL clock budgets: go movetime 0/1/3 or a clock under the reserve, then go depth d in the same process must complete all d iterations like a fresh process",
     "trusted_base": SEARCH_TB + [HASHINJ],
-    "assumptions": [HASHINJ, "QFinite", "the wall clock is abstracted to 'some poll is the first to return true' (every monotone clock is such an oracle)"],
+    "assumptions": [HASHINJ, "existence of the reference values is a hypothesis of the generic theorems; for chess it is discharged on every good board (Props/QSpecChess.lean: chess_V_total)", "the wall clock is abstracted to 'some poll is the first to return true' (every monotone clock is such an oracle)"],
     "finding_key": lambda sf: None,
     "timeout": 3000,
 }
@@ -173,18 +173,18 @@ PROPS["C07"] = {
 }
 PROPS["C08"] = {
     "level": "proof",
-    "prop_modules": ["Flounder.Props.C08", "Flounder.Props.C08Ranked", "Flounder.Props.ChessSearch", "Flounder.Props.ChessSearchExample"],
+    "prop_modules": ["Flounder.Props.C08", "Flounder.Props.C08Ranked", "Flounder.Props.ChessSearch", "Flounder.Props.ChessSearchExample", "Flounder.Props.QSpecChess"],
     "budget": {"quick": [("c08", 25)], "thorough": [("c08", 500)], "search": [("c08", 1000)]},
     "rule": "generated positions containing a mate in one (play-outs + heavy-piece small positions, filtered): fresh searcher at depths 1..4, the answer judged by the executable rules (must mate); positions with both mate-allowing and safe moves at depths 2..3 (answer must be safe), incl. positions with a single safe move",
     "trusted_base": SEARCH_TB + [HASHINJ],
-    "assumptions": [HASHINJ, "EvalBound (C14) for the positions searched", "QFinite and no deeper record reused for the depth-2/3 half (as C05)"],
+    "assumptions": [HASHINJ, "EvalBound (C14) for the positions searched", "no deeper record reused for the depth-2/3 half (as C05); the reference values exist on every good board (chess_avoidable_mate_avoided_total needs no finiteness hypothesis)"],
     "finding_key": lambda sf: None,
     "timeout": 3000,
 }
 PROPS["C03"] = {
     "level": "proof",
     "prop_modules": ["Flounder.Props.C03", "Flounder.Props.SearchRanked", "Flounder.Props.ChessSearch", "Flounder.Props.ChessSearchExample", "Flounder.Props.C03Engine", "Flounder.Props.C03EngineExample", "Flounder.Props.QTerm"],
-    "budget": {"quick": [("c03", 15)], "thorough": [("c03", 400)], "search": [("c03", 800)]},
+    "budget": {"quick": [("c03", 15), ("c04", 120)], "thorough": [("c03", 400), ("c04", 2000)], "search": [("c03", 800), ("c04", 4000)]},
     "custom": [blackbox.step_transcripts, blackbox.step_timed],
     "rule": "in-process: after 0-3 earlier (possibly interrupted) searches on other positions, the position is searched with a deadline at every early poll (0 = zero budget), sampled later polls/node counts and no deadline; every answer judged by the Lean rules spec (legal; 'no move' only without legal moves); mate/stalemate positions. black-box: generated UCI scripts on the real binary, one bestmove per go, legal by the spec; real clocks (movetime 0/1/5/30, clocks around the 5 s reserve)",
     "trusted_base": SEARCH_TB + [HASHINJ],
@@ -195,7 +195,7 @@ PROPS["C03"] = {
 PROPS["C04"] = {
     "level": "proof",
     "prop_modules": ["Flounder.Props.C04", "Flounder.Props.C04Gen"],
-    "budget": {"quick": [("c04", 300)], "thorough": [("c04", 6000)], "search": [("c04", 12000)]},
+    "budget": {"quick": [("c04", 300), ("c09", 40)], "thorough": [("c04", 6000), ("c09", 600)], "search": [("c04", 12000), ("c09", 1200)]},
     "rule": "1-3 position commands per engine (startpos / FEN of corpus and generated valid positions, counters from {0,1,49,99,100,150} x {1,2,49,255,256,300,5949,65535}, irregular spacing), each followed by a random legal game (0-200 plies, all move kinds, all promotion pieces) written in UCI text by an independent printer; the engine's board after the command vs the model vs the fold of Spec.play; distinct = distinct command lines",
     "trusted_base": [KERNEL, AXIOMS, TIE, EXTRACT, "str::split_whitespace / split / parse modelled over List Char (ASCII white space)", "harness FEN/UCI printers generate the inputs"],
     "assumptions": ["FEN counters below 65536 (the widened field type, re-extracted from fen.rs)"],
